@@ -24,6 +24,7 @@ func init() { commands["c19"] = runC19 }
 type assignment struct {
 	Mode, WorkDir, Storage, Interval, SigMode, FetchMode, CacheDur *string
 	CDPStrict, AIAStrict                                           *bool
+	CDPStrictText, AIAStrictText                                   string // Caddyfile spelling of the boolean (default: true / false)
 	CRLUrls, CRLFiles, TrustedSig, TrustedResp                     []string
 	// deliberately wrong additions
 	BadKey   string // "", "top", "crl", "cdp", "ocsp"
@@ -137,7 +138,11 @@ func (a assignment) Caddyfile() string {
 		cdpLines = append(cdpLines, "crl_fetch_mode "+q(*a.FetchMode))
 	}
 	if a.CDPStrict != nil {
-		cdpLines = append(cdpLines, fmt.Sprintf("crl_cdp_strict %v", *a.CDPStrict))
+		if a.CDPStrictText != "" {
+			cdpLines = append(cdpLines, "crl_cdp_strict "+a.CDPStrictText)
+		} else {
+			cdpLines = append(cdpLines, fmt.Sprintf("crl_cdp_strict %v", *a.CDPStrict))
+		}
 	}
 	if a.BadKey == "cdp" {
 		cdpLines = append(cdpLines, "crl_cdp_strcit true")
@@ -149,7 +154,11 @@ func (a assignment) Caddyfile() string {
 		ocLines = append(ocLines, "trusted_responder_cert_file "+q(u))
 	}
 	if a.AIAStrict != nil {
-		ocLines = append(ocLines, fmt.Sprintf("ocsp_aia_strict %v", *a.AIAStrict))
+		if a.AIAStrictText != "" {
+			ocLines = append(ocLines, "ocsp_aia_strict "+a.AIAStrictText)
+		} else {
+			ocLines = append(ocLines, fmt.Sprintf("ocsp_aia_strict %v", *a.AIAStrict))
+		}
 	}
 	if a.BadKey == "ocsp" {
 		ocLines = append(ocLines, "ocsp_aia_stritc true")
@@ -407,6 +416,42 @@ func runC19(c *Ctx) {
 		a.BadValue = bv.k
 		add("invalid value for "+bv.k, a)
 	}
+	// spellings of the boolean options in the Caddyfile: whatever is accepted must mean what it says
+	type spelling struct {
+		text    string
+		meaning int // 1 true, 0 false, -1 not a boolean: must be rejected
+	}
+	spellings := []spelling{{"true", 1}, {"false", 0}, {"True", 1}, {"TRUE", 1}, {"t", 1}, {"T", 1}, {"1", 1}, {"False", 0}, {"FALSE", 0}, {"f", 0}, {"F", 0}, {"0", 0},
+		{"yes", -1}, {"no", -1}, {"on", -1}, {"off", -1}, {"maybe", -1}, {"2", -1}, {"tru", -1}, {"truee", -1}, {"\"\"", -1}}
+	for _, opt := range []string{"cdp_strict", "aia_strict"} {
+		for _, sp := range spellings {
+			a := mk(map[string]bool{"work_dir": true}, rnd)
+			tv := true
+			if opt == "cdp_strict" {
+				a.CDPStrict, a.CDPStrictText = &tv, sp.text
+			} else {
+				a.AIAStrict, a.AIAStrictText = &tv, sp.text
+			}
+			e := viaCaddyfile(a)
+			ok := e.LoadErr == "" && e.ProvisionErr == ""
+			got := e.CDPStrict
+			if opt == "aia_strict" {
+				got = e.AIAStrict
+			}
+			c.Count("bool-spelling")
+			c.Nontrivial("bool|" + opt + "|" + sp.text)
+			c.Rep.Cases++
+			rep := map[string]interface{}{"option": opt, "caddyfile_value": sp.text, "accepted": ok, "effective": got, "caddyfile": a.Caddyfile()}
+			switch {
+			case sp.meaning == -1 && ok:
+				c.Fail("", fmt.Sprintf("Caddyfile %s %s: not a boolean, but accepted (effective value %v)", opt, sp.text, got), rep)
+			case sp.meaning >= 0 && ok && got != (sp.meaning == 1):
+				c.Fail("", fmt.Sprintf("Caddyfile %s %s: accepted, but the effective value is %v", opt, sp.text, got), rep)
+			case (sp.text == "true" || sp.text == "false") && !ok:
+				c.Fail("", fmt.Sprintf("Caddyfile %s %s: rejected: %s%s", opt, sp.text, e.LoadErr, e.ProvisionErr), rep)
+			}
+		}
+	}
 	var items []string
 	for i, t := range cases {
 		t.Text = t.A.Caddyfile()
@@ -481,7 +526,7 @@ func runC19(c *Ctx) {
 	}
 	sort.Strings(items)
 	c.WriteCoqSharded("cases_C19", "From Verif Require Import Base Config RunConfig.\nOpen Scope string_scope.\n", "cfcase", items, "config_mismatches", 100)
-	c.Rep.Cases = len(cases)
+	c.Rep.Cases += len(cases)
 	c.Rep.Rule = "option assignments rendered as JSON and as Caddyfile, loaded (StrictUnmarshalJSON / UnmarshalCaddyfile) and provisioned: nothing, each option alone, each mode with and without everything, configured CRLs under every signature x fetch x storage combination, random subsets with random values; misspelt keys at the four nesting levels and invalid values for six options; compared: effective parsed configuration, error class; distinct by assignment"
 }
 
